@@ -75,6 +75,10 @@ class P(framework.Prop):
                 out.append("search %s %s" % (wire.s("[%d]" % i), wire.val(arr)))
                 out.append("search %s %s" % (wire.s("a[%d]" % i), wire.val({"a": arr})))
                 out.append("search %s %s" % (wire.s("[*][%d]" % i), wire.val([arr, arr[::-1]])))
+        for d in [[1, 2, 3], [], None, True, 5, "ab", {}, {"a": [1]}, {"a": {"b": 1}}, {"a": "s"}, {"a": None}]:
+            for br in ["[::0]", "[1:2:0]", "[:0:0]", "[0::0]", "[-1:-2:0]"]:
+                for e in [br, "a" + br, "missing" + br, "@" + br, "a.b" + br, "[*]" + br, "(a || @)" + br, "a" + br + "[0]", "[a" + br + "]", "{k: a" + br + "}"]:
+                    out.append("search %s %s" % (wire.s(e), wire.val(d)))
         for v in ["n", "t", 'u5', '"97,98', "{ }", '{ "97 [ u1 ] }']:
             out.append("slice %s 0 1 1" % v)
             out.append("slice %s _ _ -1" % v)
